@@ -15,6 +15,8 @@ except ImportError:
 
 import logging
 
+from playback import _verif_trace
+
 _logger = logging.getLogger(__name__)
 
 
@@ -192,6 +194,9 @@ class Equalizer(object):
 
                     _logger.info(u'Recording {} Comparison result: {}'.format(recording_id,
                                                                               comparison))
+                    _verif_trace.emit('yielded', q=id(self), id=recording_id,
+                                      status=comparison.comparator_status.equality_status.name,
+                                      attached=playback.original_recording.id if playback is not None else None)
 
                     counter[comparison.comparator_status.equality_status] += 1
 
@@ -202,6 +207,7 @@ class Equalizer(object):
                     yield comparison
                 except Exception as ex:  # pylint: disable=broad-except
                     counter[EqualityStatus.EqualizerFailure] += 1
+                    _verif_trace.emit('yielded', q=id(self), id=recording_id, status='EqualizerFailure', attached=None)
                     yield Comparison(
                         ComparatorResult.failure_result(recording_id, ex),
                         None,
@@ -214,6 +220,7 @@ class Equalizer(object):
             completed = True
 
         finally:
+            _verif_trace.emit('finally', q=id(self))
             self._terminate_process.set()
             self._compare_tasks.close()
             self._compare_results.close()
@@ -239,12 +246,16 @@ class Equalizer(object):
 
         # Queue the task for the playback process and wait for its result
         self._compare_tasks.put(recording_id)
+        _verif_trace.emit('task_put', q=id(self), id=recording_id, worker=self._compare_process.pid,
+                          age=self._compare_process_age,
+                          rate=self.compare_execution_config.compare_process_recycle_rate)
         start_time = time()
         timed_out = True
         while time() - start_time <= self.compare_execution_config.compare_process_timeout:
             try:
                 succeeded, result = self._compare_results.get(True, 1)
                 timed_out = False
+                _verif_trace.emit('result_got', q=id(self), ok=bool(succeeded))
 
                 if not succeeded:
                     raise Exception(result)
@@ -252,6 +263,7 @@ class Equalizer(object):
                 break
             except mp.queues.Empty:
                 if not self._compare_process.is_alive():
+                    _verif_trace.emit('died', q=id(self))
                     self._compare_process = None
                     raise Exception("playback process have died")
 
@@ -265,6 +277,7 @@ class Equalizer(object):
         Handle the case that we had a timeout during comparison, killing the process if it is still alive
         """
         _logger.warning('Waiting for comparison result timed out')
+        _verif_trace.emit('timed_out', q=id(self))
         if self._compare_process.is_alive():
             try:
                 self._kill_compare_process()
@@ -317,6 +330,7 @@ class Equalizer(object):
             target=self._playback_process_target, name='Playback runner')
         self._compare_process.start()
         self._compare_process_age = 0
+        _verif_trace.emit('worker_started', q=id(self), worker=self._compare_process.pid)
 
     def _playback_process_target(self):
         """
